@@ -28,7 +28,9 @@ class GreenletTimeout(BaseException):
 
 BASE_EXC_KINDS = {"kbint": KeyboardInterrupt, "sysexit": SystemExit, "greenlet": GreenletTimeout}
 # the same interrupts arriving in sendall() *after* the bytes went out (the request is on its way, a reply will come)
-BASE_EXC_DELIVERED = {"kbint_delivered": KeyboardInterrupt, "greenlet_delivered": GreenletTimeout}
+BASE_EXC_DELIVERED = {"kbint_delivered": KeyboardInterrupt, "greenlet_delivered": GreenletTimeout,
+                      # ... or after only part of them went out (the peer holds a fragment of a command)
+                      "kbint_partial": KeyboardInterrupt, "greenlet_partial": GreenletTimeout}
 
 # fault kinds applicable to each socket-call type (ordinary failures)
 KINDS = {
@@ -36,8 +38,8 @@ KINDS = {
     T_SOCKET: ["oserror"],
     T_SETSOCKOPT: ["oserror"],
     T_WRAP: ["oserror"],
-    T_SETTIMEOUT: ["oserror"],
-    T_CONNECT: ["refused", "timeout", "unreach"],
+    T_SETTIMEOUT: ["oserror", "valueerror"],
+    T_CONNECT: ["refused", "timeout", "unreach", "overflow"],
     T_SENDALL: ["reset", "brokenpipe", "timeout", "timeout_delivered"],
     T_RECV: ["timeout", "reset", "eof", "eintr1", "eintr3"],
     T_CLOSE: ["oserror"],
@@ -65,6 +67,10 @@ def make_exc(kind):
         return _real_socket.gaierror(-2, "Name or service not known (injected)")
     if kind == "oserror":
         return OSError(errno.EMFILE, "injected OSError")
+    if kind == "valueerror":
+        return ValueError("Timeout value out of range (injected)")       # what settimeout(-1) raises
+    if kind == "overflow":
+        return OverflowError("bind(): port must be 0-65535. (injected)")  # what connect((h, 70000)) raises
     if kind == "refused":
         return ConnectionRefusedError(errno.ECONNREFUSED, "Connection refused (injected)")
     if kind == "unreach":
@@ -431,6 +437,12 @@ class FakeSocket:
             if k == "timeout_delivered" or k in BASE_EXC_DELIVERED:
                 raise make_exc(k)
             return None     # kernel accepts the bytes; the peer is gone
+        if isinstance(k, str) and k.endswith("_partial"):
+            # only the first part of the request reaches the peer, then the interrupt is delivered
+            part = bytes(data)[: max(1, len(data) // 2)]
+            replies = self.session.feed(part, net.ctx.call)
+            self.rx.extend([bytearray(r), tag] for r, tag, cmd in replies)
+            raise make_exc(k)
         replies = self.session.feed(bytes(data), net.ctx.call)
         segs = [[bytearray(r), tag] for r, tag, cmd in replies]
         net.sendinfo[(net.ctx.call, net.ctx.last)] = (len(segs), sum(len(x[0]) for x in segs))
